@@ -318,6 +318,13 @@ func (prop) Generate(rng *core.Rand, tier string, emit0 func(string)) {
 			emit(fmt.Sprintf("rs %s %s S:r:1p;P:2p;K;S:r:1p", e, fl))
 		}
 	}
+	// the persistence flag through the real Caddyfile adapter: `persist_config off` / absent
+	for _, e := range []string{"x-h1", "x0h1"} {
+		for _, fl := range []string{".", "x=2"} {
+			emit(fmt.Sprintf("rs %s %s S:-:c5n;P:2p;K;S:r:c6d;K;S:-:c7d;K;S:r:c8n;K;S:-:c9n;K;S:r:c3d", e, fl))
+			emit(fmt.Sprintf("rs %s %s S:r:c4n;K;S:r:c5d;P:6n;K;S:r:c7n", e, fl))
+		}
+	}
 	rrs := rng.Fork()
 	nRS := 12
 	if tier == "thorough" {
@@ -335,7 +342,11 @@ func (prop) Generate(rng *core.Rand, tier string, emit0 func(string)) {
 			case 0:
 				evs = append(evs, "K")
 			case 1, 2:
-				evs = append(evs, fmt.Sprintf("S:%s:%d%s", rrs.Pick([]string{"r", "r", "-"}), next, rrs.Pick([]string{"p", "d", "n"})))
+				if rrs.Chance(1, 3) {
+					evs = append(evs, fmt.Sprintf("S:%s:c%d%s", rrs.Pick([]string{"r", "r", "-"}), next, rrs.Pick([]string{"d", "n"})))
+				} else {
+					evs = append(evs, fmt.Sprintf("S:%s:%d%s", rrs.Pick([]string{"r", "r", "-"}), next, rrs.Pick([]string{"p", "d", "n"})))
+				}
 			default:
 				x := ""
 				if rrs.Chance(1, 8) {
@@ -442,7 +453,7 @@ func (prop) Generate(rng *core.Rand, tier string, emit0 func(string)) {
 	// ---- malformed
 	bad := []string{"ca", "ca ", "ca x", "ca l", "ca l:", "ca l:0cb", "ca l:3xx", "ca m:-", "ca l:-;", "ca l:-;;l:-", "ca l:-3cb", "ca m", "ca m:", "ca m:0cb", "ca m:-:-", "ca d:xx", "ca c:rc", "ca c:rc>zz", "ca d:", "ca c:rc>rk>ik",
 		"as", "as L", "as L1", "as L1:d", "as L1:q:-", "as L1:d:K0", "as L1:d:X1", "as L1:dd:-", "as Lx:d:-", "as R;", "as L1:d:K1;L2:d:F1", "as U:", "as u", "as L1:d:-;UU",
-		"rs", "rs x-h1", "rs x-h1 .", "rs x-h1 . Q", "rs xzh1 . K", "rs x-h1 x=- K", "rs x-h1 x=2,x=3 K", "rs x-h1 . S:r:1px", "rs x-h1 . P:1q", "rs x-h1 . S:z:1p", "fs", "fs l", "fs l:K0", "fs l:X1", "fs m:-", "fs l:-;", "fs l:3cb", "zz l:-", "ca l:- extra", "as L1:dff:-", "ca l:1cb:2", "as L1:d:-:3"}
+		"rs", "rs x-h1", "rs x-h1 .", "rs x-h1 . Q", "rs xzh1 . K", "rs x-h1 x=- K", "rs x-h1 x=2,x=3 K", "rs x-h1 . S:r:1px", "rs x-h1 . P:1q", "rs x-h1 . S:z:1p", "rs x-h1 . S:-:c1p", "rs x-h1 . S:-:c1nx", "rs x-h1 . P:c1d", "rs x-h1 . S:-:c", "fs", "fs l", "fs l:K0", "fs l:X1", "fs m:-", "fs l:-;", "fs l:3cb", "zz l:-", "ca l:- extra", "as L1:dff:-", "ca l:1cb:2", "as L1:d:-:3"}
 	for _, b := range bad {
 		emit(b)
 	}
